@@ -1,0 +1,108 @@
+// SPDX-FileCopyrightText: 2026 The Pion community <https://pion.ly>
+// SPDX-License-Identifier: MIT
+
+//go:build verif
+
+package ice
+
+import (
+	"net"
+	"net/netip"
+)
+
+// This file exists only with the verif build tag. It gives an external
+// verification harness access to a few unexported pure functions (address
+// rewrite lookup and application, pair priority) without changing them.
+
+func verifIPStrings(ips []net.IP) []string {
+	out := make([]string, 0, len(ips))
+	for _, ip := range ips {
+		out = append(out, ip.String())
+	}
+
+	return out
+}
+
+// VerifRewriteMapper wraps a compiled address rewrite mapper (nil when the rules compile to nothing).
+type VerifRewriteMapper struct{ m *addressRewriteMapper }
+
+// VerifNewRewriteMapper compiles rules exactly as applyAddressRewriteMapping does.
+func VerifNewRewriteMapper(rules []AddressRewriteRule) (*VerifRewriteMapper, error) {
+	m, err := newAddressRewriteMapper(rules)
+	if err != nil {
+		return nil, err
+	}
+
+	return &VerifRewriteMapper{m: m}, nil
+}
+
+// VerifAgentRewriteMapper returns the mapper an agent was constructed with.
+func VerifAgentRewriteMapper(a *Agent) *VerifRewriteMapper {
+	return &VerifRewriteMapper{m: a.addressRewriteMapper}
+}
+
+// VerifInstallRewriteRules compiles rules into an existing agent the way agent construction does.
+func VerifInstallRewriteRules(a *Agent, rules []AddressRewriteRule) error {
+	a.addressRewriteRules = rules
+
+	return applyAddressRewriteMapping(a)
+}
+
+// VerifFindExternalIPs is findExternalIPs on the wrapped mapper.
+func (v *VerifRewriteMapper) VerifFindExternalIPs(
+	typ CandidateType, localIP, iface string,
+) (ips []string, matched bool, mode AddressRewriteMode, err error) {
+	if v.m == nil {
+		return []string{}, false, addressRewriteModeUnspecified, nil
+	}
+	raw, matched, mode, err := v.m.findExternalIPs(typ, localIP, iface)
+
+	return verifIPStrings(raw), matched, mode, err
+}
+
+// VerifApplyHostRewrite is what gatherCandidatesLocal does with one interface address.
+func VerifApplyHostRewrite(a *Agent, localIP, iface string) ([]string, bool) {
+	addr := netip.MustParseAddr(localIP)
+	mapped := []netip.Addr{addr}
+	ok := true
+	if a.shouldRewriteHostCandidates() {
+		mapped, ok = a.applyHostAddressRewrite(addr, mapped, iface)
+	}
+	out := make([]string, 0, len(mapped))
+	for _, m := range mapped {
+		out = append(out, m.String())
+	}
+
+	return out, ok
+}
+
+// VerifResolveRelayAddresses is what relay gathering does with one allocation.
+func VerifResolveRelayAddresses(a *Agent, relayIP, relAddr, iface string) ([]string, bool) {
+	ips, ok := a.resolveRelayAddresses(relayEndpoint{address: net.ParseIP(relayIP), relAddr: relAddr, iface: iface})
+
+	return verifIPStrings(ips), ok
+}
+
+// VerifAttachCandidate makes a candidate see the agent's configuration (TCP priority offset)
+// the way a started candidate does, without opening a socket.
+func VerifAttachCandidate(a *Agent, c Candidate) bool {
+	switch v := c.(type) {
+	case *CandidateHost:
+		v.currAgent = a
+	case *CandidateServerReflexive:
+		v.currAgent = a
+	case *CandidatePeerReflexive:
+		v.currAgent = a
+	case *CandidateRelay:
+		v.currAgent = a
+	default:
+		return false
+	}
+
+	return true
+}
+
+// VerifPairPriority is the priority of the pair (local, remote) as the checklist computes it.
+func VerifPairPriority(local, remote Candidate, controlling bool) uint64 {
+	return newCandidatePair(local, remote, controlling).priority()
+}
